@@ -1,4 +1,4 @@
 SPECIFICATION Spec
-CONSTANTS MaxLen = 4 CopyOnCompute = FALSE
+CONSTANTS MaxLen = 4 CopyOnCompute = "none"
 INVARIANT Fresh
 CHECK_DEADLOCK FALSE
